@@ -390,6 +390,13 @@ StageClausesW(s, e, t, connS, connT) ==
             LET R == SelAll(S, ArgSet(e)) IN
             /\ IdxPairs(T.idx) = {x \in IdxPairs(S.idx) : x[1] \notin R}
             /\ T.wt = RestrictWt(S.wt, DOMAIN S.wt \ R)),
+    (* a tracked file or directory named through another spelling (docs/, ./docs, d/./x): what the arguments name after *)
+    (* lexical cleaning is what is removed                                                                             *)
+    Cl("C04_RmSpelled", {"C04", "C06"}, e.ev = "rm" /\ ~Dom(e) /\ "cpaths" \in DOMAIN e /\ Len(e.cpaths) > 0 /\ Ok(e),
+        (e.ev = "rm" /\ ~Dom(e) /\ "cpaths" \in DOMAIN e /\ Len(e.cpaths) > 0 /\ Ok(e)) =>
+            LET R == SelAll(S, SeqToSet(e.cpaths)) IN
+            /\ IdxPairs(T.idx) = {x \in IdxPairs(S.idx) : x[1] \notin R}
+            /\ T.wt = RestrictWt(S.wt, DOMAIN S.wt \ R)),
     Cl("C06_RmFound", {"C06", "C04"}, isRm /\ Len(e.paths) > 0 /\ ArgsAllTracked(S, ArgSet(e)) /\ ArgsDisjoint(S, e.paths) /\ NoneIsDirOnDisk(S, SelAll(S, ArgSet(e))),
         isRm /\ Len(e.paths) > 0 /\ ArgsAllTracked(S, ArgSet(e)) /\ ArgsDisjoint(S, e.paths) /\ NoneIsDirOnDisk(S, SelAll(S, ArgSet(e))) => Ok(e)),
     Cl("C06_RmUnknown", {"C06", "C18"}, isRm /\ \E a \in ArgSet(e) : SelTracked(S, a) = {},
@@ -559,6 +566,16 @@ RefClausesW(s, e, t, connS, connT) ==
             /\ View(t)[1].full = HeadId(T) /\ View(t)[1].kind = "checkout"),
     (* C10: "a refused operation changes nothing" - for every spelling of the branch commands, also the ones with *)
     (* surplus or combined arguments (`switch -c new existing`) that the command line grammar produces            *)
+    (* rev-parse with several names prints, line by line, the commit each name stands for (HEAD = the current branch) *)
+    (* (a branch that is itself called HEAD makes the name ambiguous: no verdict then; the driver does not name branches *)
+    (* whose lower-case spelling is "head" here, because Goit reads every spelling of HEAD as HEAD)                       *)
+    Cl("C10_RevParseCmd", {"C10"}, e.ev = "revparse" /\ ok0 /\ "out" \in DOMAIN e /\ Len(e.names) > 0 /\ "HEAD" \notin Branches(S)
+                                     /\ (\A i \in 1..Len(e.names) : e.names[i] \in Branches(S) \/ (e.names[i] = "HEAD" /\ hc)),
+        (e.ev = "revparse" /\ ok0 /\ "out" \in DOMAIN e /\ Len(e.names) > 0 /\ "HEAD" \notin Branches(S)
+            /\ (\A i \in 1..Len(e.names) : e.names[i] \in Branches(S) \/ (e.names[i] = "HEAD" /\ hc))) =>
+            /\ Ok(e)
+            /\ e.out.esc = JoinLines([i \in 1..Len(e.names) |-> IF e.names[i] = "HEAD" /\ "HEAD" \notin Branches(S) THEN S.refs[hb] ELSE S.refs[e.names[i]]])
+            /\ Unchanged(s, t)),
     Cl("C10_RefusedNothing", {"C10"},
         IsCmd(e) /\ Refused(e) /\ (e.ev \in {"branch", "branchd", "branchr", "switch", "switchc", "updateref", "branchlist"}
                                      \/ (e.ev = "raw" /\ "ru" \in DOMAIN e /\ e.ru /\ "sub" \in DOMAIN e /\ e.sub \in {"branch", "switch", "update-ref", "rev-parse"})),
